@@ -106,6 +106,7 @@ type vsFakePoll struct {
 	deleted    bool
 	adds, dels int
 	frees      int
+	ctlPoint   bool // C08: epoll_ctl(MOD) is a schedule point of its own (the lifecycle scenarios keep their schedules)
 	interestW  bool // EPOLLOUT interest as set by PollR2RW / PollRW2R (C08: write events are fetched only while it is set and !deleted)
 }
 
@@ -125,9 +126,15 @@ func (p *vsFakePoll) Control(operator *FDOperator, event PollEvent) error {
 		p.dels++
 		p.s.ghost("epoll del")
 	case PollR2RW:
+		if p.ctlPoint {
+			p.s.point("poll.ctl")
+		}
 		p.interestW = true
 		p.s.ghost("epoll mod rw")
 	case PollRW2R:
+		if p.ctlPoint {
+			p.s.point("poll.ctl")
+		}
 		p.interestW = false
 		p.s.ghost("epoll mod r")
 	}
